@@ -43,6 +43,9 @@ type fakeModify struct {
 	sends         int
 	gid           string
 	cancelled     bool
+	// cancel ends the stream's context, as gRPC does when the client cancels the RPC or the
+	// transport fails (not on a clean half-close)
+	cancel context.CancelFunc
 }
 
 func (f *fakeModify) Context() context.Context { return f.ctx }
@@ -50,6 +53,9 @@ func (f *fakeModify) Send(m *spb.ModifyResponse) error {
 	f.mu.Lock()
 	defer f.mu.Unlock()
 	if f.failSendAfter >= 0 && f.sends >= f.failSendAfter {
+		if f.cancel != nil {
+			f.cancel() // a stream whose transport has failed has a finished context
+		}
 		return errors.New("transport is closing")
 	}
 	f.sends++
@@ -207,7 +213,8 @@ func (h *SrvH) sessionIDs() map[string]bool {
 // Connect opens a Modify RPC as session c.
 func (h *SrvH) Connect(c int) error {
 	before := h.sessionIDs()
-	f := &fakeModify{ctx: context.Background(), in: make(chan *spb.ModifyRequest), ready: make(chan struct{}, 1), done: make(chan error, 1), failSendAfter: -1}
+	fctx, fcancel := context.WithCancel(context.Background())
+	f := &fakeModify{ctx: fctx, cancel: fcancel, in: make(chan *spb.ModifyRequest), ready: make(chan struct{}, 1), done: make(chan error, 1), failSendAfter: -1}
 	gidc := make(chan string, 1)
 	go func() { gidc <- curGoroutineID(); f.done <- h.S.Modify(f) }()
 	f.gid = <-gidc
@@ -230,7 +237,8 @@ func (h *SrvH) Connect(c int) error {
 // ConnectDetached opens a Modify RPC that is not registered in the harness's session table (so
 // that it can be driven from another goroutine while the numbered sessions are in use).
 func (h *SrvH) ConnectDetached() (*fakeModify, error) {
-	f := &fakeModify{ctx: context.Background(), in: make(chan *spb.ModifyRequest), ready: make(chan struct{}, 1), done: make(chan error, 1), failSendAfter: -1}
+	fctx, fcancel := context.WithCancel(context.Background())
+	f := &fakeModify{ctx: fctx, cancel: fcancel, in: make(chan *spb.ModifyRequest), ready: make(chan struct{}, 1), done: make(chan error, 1), failSendAfter: -1}
 	gidc := make(chan string, 1)
 	go func() { gidc <- curGoroutineID(); f.done <- h.S.Modify(f) }()
 	f.gid = <-gidc
@@ -330,6 +338,9 @@ func (h *SrvH) Close(c int, mode string) MsgOutcome {
 		f.failSendAfter = f.sends // the client is gone: nothing more can be written to it
 		f.cancelled = mode == "cancel"
 		f.mu.Unlock()
+		if f.cancel != nil {
+			f.cancel()
+		}
 		select {
 		case f.in <- nil:
 		case <-time.After(stepTO()):
